@@ -508,6 +508,9 @@ func (c *Ctx) Finish() int {
 	if len(c.distinct) < 2 {
 		inconclusive = append(inconclusive, "fewer than 2 distinct non-trivial cases")
 	}
+	if c.notes == nil {
+		c.notes = []string{}
+	}
 	cov := map[string]any{
 		"evaluations":         c.evals,
 		"distinct_nontrivial": len(c.distinct),
